@@ -444,8 +444,15 @@ def gen_world(rng, flags=None, country="us"):
     n_assets = flags.get("n_assets") or rng.choice([1, 1, 2, 2, 3, 4, 5, 6])
     assets = rng.sample(ASSET_POOL, n_assets)
     if flags.get("confusable"):
-        exchanges = rng.sample(CONFUSABLE_EXCHANGES, flags.get("n_exchanges") or rng.choice([2, 3, 4]))
-        holders = rng.sample(CONFUSABLE_HOLDERS, flags.get("n_holders") or rng.choice([1, 2, 3]))
+        # whole collision families, so that the colliding accounts really are in use: names equal after case folding; names whose
+        # "<exchange>_<holder>" concatenations coincide; blank vs underscore
+        fam = rng.choice(["case", "concat", "concat", "blank"])
+        if fam == "case":
+            exchanges, holders = ["Kraken", "kraken", "KRAKEN"][: rng.choice([2, 3])], rng.sample(["Alice", "alice", "ALICE", "Bob"], rng.choice([1, 2, 3]))
+        elif fam == "concat":
+            exchanges, holders = ["Ledger_Bob", "Ledger"] + rng.sample(["Kraken", "Coinbase"], rng.choice([0, 1])), ["Alice", "Bob_Alice"] + rng.sample(["Bob"], rng.choice([0, 1]))
+        else:
+            exchanges, holders = ["Coin base", "Coin_base", "Kraken"][: rng.choice([2, 3])], rng.sample(["Alice", "Bob", "Bob_Alice"], rng.choice([1, 2]))
     else:
         exchanges = rng.sample(EXCHANGE_POOL, flags.get("n_exchanges") or rng.choice([1, 2, 2, 3, 4]))
         holders = rng.sample(HOLDER_POOL, flags.get("n_holders") or rng.choice([1, 1, 1, 2, 3]))
